@@ -9,6 +9,9 @@ import (
 	"github.com/shopspring/decimal"
 )
 
+// the largest exponent (in either direction) of a number read from JSON
+const maxJSONNumberExponent = 10000
+
 // JSONToXValue returns an X type from the given JSON
 func JSONToXValue(data []byte) XValue {
 	if len(data) == 0 {
@@ -47,6 +50,10 @@ func jsonTypeToXValue(data []byte, valType jsonparser.ValueType) XValue {
 	case jsonparser.Number:
 		decimalVal, err := decimal.NewFromString(string(data))
 		if err == nil {
+			// numbers with huge exponents make arithmetic on them and rendering them arbitrarily expensive
+			if decimalVal.Exponent() > maxJSONNumberExponent || decimalVal.Exponent() < -maxJSONNumberExponent {
+				return NewXErrorf("number %s is out of range", string(data))
+			}
 			return NewXNumber(decimalVal)
 		}
 	case jsonparser.Boolean:
